@@ -150,25 +150,26 @@ func checkC04(P *Program, r *Result, tier string) {
 		fn := ms[name]
 		fa := A.fa(fn)
 		n := fa.expand(fn.Params[1])
-		for _, ret := range returnsOf(fn) {
-			errIdx := len(ret.Results) - 1
-			errNil := fa.nilExpand(ret.Results[errIdx])
-			if c, ok := errNil.constVal(); !ok || c.Sign() != 0 {
+		nSucc := 0
+		for _, rc := range retCases(fn) {
+			if !readerCaseSucceeds(fa, rc) {
 				continue // error path: FAIL-PURE / SHORT⇒ERR
 			}
+			nSucc++
+			ret, res, blk := rc.ret, rc.results, rc.at.Block()
 			ri0 := cellIntEntry(fa, "ri")
-			riX := cellIntAt(fa, ret, "ri")
+			riX := cellAtCase(fa, rc, "ri")
 			if ri0 == nil {
 				ri0 = riX
 			}
 			if name != "Skip" {
-				d := fa.sliceDesc(ret.Results[0])
+				d := fa.sliceDesc(res[0])
 				ok := d != nil && d.Root != nil && isLoadOfField(fn, d.Root, "buf")
 				detail := ""
 				if !ok {
 					detail = "result is not a slice of r.buf"
 				} else {
-					ok = fa.proveEq(d.Off, ri0, ret.Block()) && fa.proveEq(d.Len, n, ret.Block())
+					ok = fa.proveEq(d.Off, ri0, blk) && fa.proveEq(d.Len, n, blk)
 					if !ok {
 						detail = "offset must equal ri (on entry) and length n"
 					}
@@ -181,8 +182,9 @@ func checkC04(P *Program, r *Result, tier string) {
 				want = ri0.add(n)
 				what = "ri advanced by exactly n"
 			}
-			r.add("CURSOR", shortName(fn), "return", what, P.pos(instrPos(ret)), riX != nil && fa.proveEq(riX, want, ret.Block()), "")
+			r.add("CURSOR", shortName(fn), "return", what, P.pos(instrPos(ret)), riX != nil && fa.proveEq(riX, want, blk), "")
 		}
+		r.require(name+": a way out that can succeed", nSucc > 0)
 	}
 	if fn := ms["ReadBinary"]; fn != nil {
 		fa := A.fa(fn)
@@ -277,17 +279,17 @@ func checkC04(P *Program, r *Result, tier string) {
 	for _, name := range []string{"Next", "Peek", "Skip"} {
 		fn := ms[name]
 		fa := A.fa(fn)
-		for _, ret := range returnsOf(fn) {
-			errIdx := len(ret.Results) - 1
-			if c, ok := fa.nilExpand(ret.Results[errIdx]).constVal(); ok && c.Sign() == 0 {
+		for _, rc := range retCases(fn) {
+			if readerCaseSucceeds(fa, rc) {
 				continue
 			}
+			ret, res, blk := rc.ret, rc.results, rc.at.Block()
 			// no store to ri/buf since function entry on this path
-			ri0, riX := cellIntEntry(fa, "ri"), cellIntAt(fa, ret, "ri")
-			same := ri0 == nil || (riX != nil && fa.proveEq(riX, ri0, ret.Block()))
+			ri0, riX := cellIntEntry(fa, "ri"), cellAtCase(fa, rc, "ri")
+			same := ri0 == nil || (riX != nil && fa.proveEq(riX, ri0, blk))
 			r.add("FAIL-PURE", shortName(fn), "return", "failure consumes nothing (ri as on entry)", P.pos(instrPos(ret)), same, "")
 			if name != "Skip" {
-				d := fa.sliceDesc(ret.Results[0])
+				d := fa.sliceDesc(res[0])
 				nilRes := d != nil && d.Len.isConst() && d.Len.C.Sign() == 0
 				r.add("FAIL-PURE", shortName(fn), "return", "failure returns no bytes", P.pos(instrPos(ret)), nilRes, "")
 			}
@@ -504,6 +506,7 @@ func checkC04(P *Program, r *Result, tier string) {
 			r.add("WINDOW", shortName(fn), "store", "store to buf preserves the unread window ("+kind+")", P.pos(instrPos(st)), ok, detail)
 		}
 	}
+	ringRule(P, r, "RING")
 	r.assume("io.Reader.Read(p) writes only into p and reports 0 ≤ n ≤ len(p) (io.Reader contract)")
 	r.assume("mcache.Malloc(size, cap...) returns a slice of the requested length whose capacity is at least the request")
 	r.assume("the class invariant ri ≤ len(buf) ≤ cap(buf) is not mechanised; Go's own bounds checks guard the slice expressions")
@@ -694,4 +697,13 @@ func comparedWithConst(v ssa.Value) bool {
 		}
 	}
 	return false
+}
+
+// readerCaseSucceeds: on this way out the error handed back is nil (a nil constant, a value tested nil on the way, or
+// proved nil). Everything else is treated as a failure, which owes FAIL-PURE.
+func readerCaseSucceeds(fa *FA, rc retCase) bool {
+	if success, known := caseSuccess(rc); known {
+		return success
+	}
+	return fa.prove(ineqLE(fa.nilExpand(rc.results[len(rc.results)-1]), linConst(0)), rc.at.Block(), rootCtx)
 }
